@@ -262,8 +262,8 @@ func Normalize(dir, inventoryPath string) (out string, notes []string, cleanup f
 					}
 					ordinal[encl+">"+nf.key]++
 					site := fmt.Sprintf("%s>%s#%d", encl, nf.key, ordinal[encl+">"+nf.key])
-					if gaveUp[site] {
-						return true
+					if gaveUp[site] || target != nil {
+						return true // first candidate in source order
 					}
 					target, tnf, tsite = call, nf, site
 					inGo = false
@@ -298,7 +298,19 @@ func Normalize(dir, inventoryPath string) (out string, notes []string, cleanup f
 				logf := func(string, ...any) {}
 				var newContent []byte
 				why := ""
-				if callee, err := inline.AnalyzeCallee(logf, tnf.pkg.Fset, tnf.pkg.Types, tnf.pkg.TypesInfo, tnf.decl, calleeContent); err != nil {
+				if inGo {
+					seq++
+					sc := &spliceCtx{fset: p.Fset, callerPkg: p.Types, callerInfo: p.TypesInfo, callerFile: f, callerSrc: content,
+						calleeDecl: tnf.decl, calleeInfo: tnf.pkg.TypesInfo, calleeSrc: calleeContent, calleeFile: calleeFile, seq: seq}
+					if out, err := sc.spliceGo(target); err != nil {
+						why = err.Error()
+					} else {
+						newContent = out
+					}
+				}
+				if newContent != nil {
+					// done
+				} else if callee, err := inline.AnalyzeCallee(logf, tnf.pkg.Fset, tnf.pkg.Types, tnf.pkg.TypesInfo, tnf.decl, calleeContent); err != nil {
 					why = err.Error()
 				} else if res, err := inline.Inline(&inline.Caller{Fset: p.Fset, Types: p.Types, Info: p.TypesInfo, File: f, Call: target, Content: content}, callee, &inline.Options{Logf: logf}); err != nil {
 					why = err.Error()
